@@ -48,6 +48,11 @@ type wmsg struct {
 	ExtraCount int  // ANCOUNT is larger than the number of answer RRs by this much
 	CutTail    int  // this many bytes are removed from the end of the packed message
 	PtrLoop    bool // first answer owner name is a compression pointer to itself
+	// PadTo > 0: TXT records (TTL PadTTL) are appended to the answer section when the message is
+	// packed so that it is exactly PadTo bytes long (needs at least 13 spare bytes). The padding is
+	// done at pack time because the length depends on the name that is looked up.
+	PadTo  int
+	PadTTL uint32
 }
 
 func packName(b []byte, name string) []byte {
@@ -62,6 +67,23 @@ func packName(b []byte, name string) []byte {
 }
 
 func (m *wmsg) pack() []byte {
+	if m.PadTo <= 0 {
+		return m.packWith(nil)
+	}
+	r := m.PadTo - len(m.packWith(nil))
+	var pads []rr
+	for r >= 13 {
+		c := min(r, 13+255)
+		if r-c > 0 && r-c < 13 {
+			c -= 13
+		}
+		pads = append(pads, rr{Type: tTXT, TTL: m.PadTTL, Target: strings.Repeat("x", c-13)})
+		r -= c
+	}
+	return m.packWith(pads)
+}
+
+func (m *wmsg) packWith(pads []rr) []byte {
 	b := make([]byte, 12, 512)
 	binary.BigEndian.PutUint16(b[0:], m.ID)
 	var f uint16
@@ -83,7 +105,7 @@ func (m *wmsg) pack() []byte {
 	f |= uint16(m.RCode & 0xF)
 	binary.BigEndian.PutUint16(b[2:], f)
 	binary.BigEndian.PutUint16(b[4:], 1)
-	binary.BigEndian.PutUint16(b[6:], uint16(len(m.Answers)+m.ExtraCount))
+	binary.BigEndian.PutUint16(b[6:], uint16(len(m.Answers)+len(pads)+m.ExtraCount))
 	binary.BigEndian.PutUint16(b[8:], uint16(len(m.Authority)))
 	if m.OPT {
 		binary.BigEndian.PutUint16(b[10:], 1)
@@ -132,6 +154,9 @@ func (m *wmsg) pack() []byte {
 		b = append(b, rd...)
 	}
 	for _, r := range m.Answers {
+		appendRR(r)
+	}
+	for _, r := range pads {
 		appendRR(r)
 	}
 	for _, r := range m.Authority {
